@@ -225,12 +225,7 @@ theorem fold_11 (h l : Nat) :
     (Gen.Mds12.mds_multiply.s_result_11_1 (Gen.Mds12.mds_multiply.s_res_11 (Gen.Mds12.mds_multiply.s_s_lo_11 (Gen.Mds12.mds_multiply.s_s_23 h l)) (Gen.Mds12.mds_multiply.s_z_11 (Gen.Mds12.mds_multiply.s_s_hi_11 (Gen.Mds12.mds_multiply.s_s_23 h l)))) (Gen.Mds12.mds_multiply.s_over_11 (Gen.Mds12.mds_multiply.s_s_lo_11 (Gen.Mds12.mds_multiply.s_s_23 h l)) (Gen.Mds12.mds_multiply.s_z_11 (Gen.Mds12.mds_multiply.s_s_hi_11 (Gen.Mds12.mds_multiply.s_s_23 h l))))) = tailRed l h := rfl
 
 /-- the plumbing of `mds_multiply` (which `let` feeds which): every output component is the
-    reduction tail of the two frequency-domain products of the low and high 32-bit limbs.
-    NOT proved in Lean: every route tried (simp unfolding, `rfl`, fold-then-rewrite) makes the
-    kernel unfold arithmetic on 2^64 literals past the identity wrappers `s_state_k_1` the translator
-    emits ("deep recursion"). The individual steps are proved (`fold_k`: each generated tail chain is
-    `tailRed`; `freq_*`: both products); this remaining statement is tied to the code by the
-    correspondence harness (`perm` / `round` ops, raw words compared bit for bit). -/
+    reduction tail of the two frequency-domain products of the low and high 32-bit limbs -/
 def mm_eq_tail_statement : Prop :=
   ∀ (x0 x1 x2 x3 x4 x5 x6 x7 x8 x9 x10 x11 : Nat),
     Gen.Mds12.mds_multiply x0 x1 x2 x3 x4 x5 x6 x7 x8 x9 x10 x11 =
@@ -258,5 +253,1079 @@ def mm_eq_tail_statement : Prop :=
          (Gen.Mds12.mds_multiply_freq (x0 / 4294967296) (x1 / 4294967296) (x2 / 4294967296) (x3 / 4294967296) (x4 / 4294967296) (x5 / 4294967296) (x6 / 4294967296) (x7 / 4294967296) (x8 / 4294967296) (x9 / 4294967296) (x10 / 4294967296) (x11 / 4294967296)).2.2.2.2.2.2.2.2.2.2.1,
        tailRed (Gen.Mds12.mds_multiply_freq (x0 % 4294967296) (x1 % 4294967296) (x2 % 4294967296) (x3 % 4294967296) (x4 % 4294967296) (x5 % 4294967296) (x6 % 4294967296) (x7 % 4294967296) (x8 % 4294967296) (x9 % 4294967296) (x10 % 4294967296) (x11 % 4294967296)).2.2.2.2.2.2.2.2.2.2.2
          (Gen.Mds12.mds_multiply_freq (x0 / 4294967296) (x1 / 4294967296) (x2 / 4294967296) (x3 / 4294967296) (x4 / 4294967296) (x5 / 4294967296) (x6 / 4294967296) (x7 / 4294967296) (x8 / 4294967296) (x9 / 4294967296) (x10 / 4294967296) (x11 / 4294967296)).2.2.2.2.2.2.2.2.2.2.2)
+
+/-! one equation per generated step, each carrying a proof term (see `gen_c11_mds.py`) -/
+section steps
+open Gen.Mds12
+
+theorem eq_mds_multiply_s_s (state_0 : Nat) :
+    Gen.Mds12.mds_multiply.s_s state_0 =
+      (state_0) := by
+  rw [Gen.Mds12.mds_multiply.s_s]
+
+theorem eq_mds_multiply_s_state_h_0_1 (s : Nat) :
+    Gen.Mds12.mds_multiply.s_state_h_0_1 s =
+      (s / 4294967296) := by
+  rw [Gen.Mds12.mds_multiply.s_state_h_0_1]
+
+theorem eq_mds_multiply_s_state_l_0_1 (s : Nat) :
+    Gen.Mds12.mds_multiply.s_state_l_0_1 s =
+      (s % 4294967296) := by
+  rw [Gen.Mds12.mds_multiply.s_state_l_0_1]
+
+theorem eq_mds_multiply_s_s_1 (state_1 : Nat) :
+    Gen.Mds12.mds_multiply.s_s_1 state_1 =
+      (state_1) := by
+  rw [Gen.Mds12.mds_multiply.s_s_1]
+
+theorem eq_mds_multiply_s_state_h_1_1 (s_1 : Nat) :
+    Gen.Mds12.mds_multiply.s_state_h_1_1 s_1 =
+      (s_1 / 4294967296) := by
+  rw [Gen.Mds12.mds_multiply.s_state_h_1_1]
+
+theorem eq_mds_multiply_s_state_l_1_1 (s_1 : Nat) :
+    Gen.Mds12.mds_multiply.s_state_l_1_1 s_1 =
+      (s_1 % 4294967296) := by
+  rw [Gen.Mds12.mds_multiply.s_state_l_1_1]
+
+theorem eq_mds_multiply_s_s_2 (state_2 : Nat) :
+    Gen.Mds12.mds_multiply.s_s_2 state_2 =
+      (state_2) := by
+  rw [Gen.Mds12.mds_multiply.s_s_2]
+
+theorem eq_mds_multiply_s_state_h_2_1 (s_2 : Nat) :
+    Gen.Mds12.mds_multiply.s_state_h_2_1 s_2 =
+      (s_2 / 4294967296) := by
+  rw [Gen.Mds12.mds_multiply.s_state_h_2_1]
+
+theorem eq_mds_multiply_s_state_l_2_1 (s_2 : Nat) :
+    Gen.Mds12.mds_multiply.s_state_l_2_1 s_2 =
+      (s_2 % 4294967296) := by
+  rw [Gen.Mds12.mds_multiply.s_state_l_2_1]
+
+theorem eq_mds_multiply_s_s_3 (state_3 : Nat) :
+    Gen.Mds12.mds_multiply.s_s_3 state_3 =
+      (state_3) := by
+  rw [Gen.Mds12.mds_multiply.s_s_3]
+
+theorem eq_mds_multiply_s_state_h_3_1 (s_3 : Nat) :
+    Gen.Mds12.mds_multiply.s_state_h_3_1 s_3 =
+      (s_3 / 4294967296) := by
+  rw [Gen.Mds12.mds_multiply.s_state_h_3_1]
+
+theorem eq_mds_multiply_s_state_l_3_1 (s_3 : Nat) :
+    Gen.Mds12.mds_multiply.s_state_l_3_1 s_3 =
+      (s_3 % 4294967296) := by
+  rw [Gen.Mds12.mds_multiply.s_state_l_3_1]
+
+theorem eq_mds_multiply_s_s_4 (state_4 : Nat) :
+    Gen.Mds12.mds_multiply.s_s_4 state_4 =
+      (state_4) := by
+  rw [Gen.Mds12.mds_multiply.s_s_4]
+
+theorem eq_mds_multiply_s_state_h_4_1 (s_4 : Nat) :
+    Gen.Mds12.mds_multiply.s_state_h_4_1 s_4 =
+      (s_4 / 4294967296) := by
+  rw [Gen.Mds12.mds_multiply.s_state_h_4_1]
+
+theorem eq_mds_multiply_s_state_l_4_1 (s_4 : Nat) :
+    Gen.Mds12.mds_multiply.s_state_l_4_1 s_4 =
+      (s_4 % 4294967296) := by
+  rw [Gen.Mds12.mds_multiply.s_state_l_4_1]
+
+theorem eq_mds_multiply_s_s_5 (state_5 : Nat) :
+    Gen.Mds12.mds_multiply.s_s_5 state_5 =
+      (state_5) := by
+  rw [Gen.Mds12.mds_multiply.s_s_5]
+
+theorem eq_mds_multiply_s_state_h_5_1 (s_5 : Nat) :
+    Gen.Mds12.mds_multiply.s_state_h_5_1 s_5 =
+      (s_5 / 4294967296) := by
+  rw [Gen.Mds12.mds_multiply.s_state_h_5_1]
+
+theorem eq_mds_multiply_s_state_l_5_1 (s_5 : Nat) :
+    Gen.Mds12.mds_multiply.s_state_l_5_1 s_5 =
+      (s_5 % 4294967296) := by
+  rw [Gen.Mds12.mds_multiply.s_state_l_5_1]
+
+theorem eq_mds_multiply_s_s_6 (state_6 : Nat) :
+    Gen.Mds12.mds_multiply.s_s_6 state_6 =
+      (state_6) := by
+  rw [Gen.Mds12.mds_multiply.s_s_6]
+
+theorem eq_mds_multiply_s_state_h_6_1 (s_6 : Nat) :
+    Gen.Mds12.mds_multiply.s_state_h_6_1 s_6 =
+      (s_6 / 4294967296) := by
+  rw [Gen.Mds12.mds_multiply.s_state_h_6_1]
+
+theorem eq_mds_multiply_s_state_l_6_1 (s_6 : Nat) :
+    Gen.Mds12.mds_multiply.s_state_l_6_1 s_6 =
+      (s_6 % 4294967296) := by
+  rw [Gen.Mds12.mds_multiply.s_state_l_6_1]
+
+theorem eq_mds_multiply_s_s_7 (state_7 : Nat) :
+    Gen.Mds12.mds_multiply.s_s_7 state_7 =
+      (state_7) := by
+  rw [Gen.Mds12.mds_multiply.s_s_7]
+
+theorem eq_mds_multiply_s_state_h_7_1 (s_7 : Nat) :
+    Gen.Mds12.mds_multiply.s_state_h_7_1 s_7 =
+      (s_7 / 4294967296) := by
+  rw [Gen.Mds12.mds_multiply.s_state_h_7_1]
+
+theorem eq_mds_multiply_s_state_l_7_1 (s_7 : Nat) :
+    Gen.Mds12.mds_multiply.s_state_l_7_1 s_7 =
+      (s_7 % 4294967296) := by
+  rw [Gen.Mds12.mds_multiply.s_state_l_7_1]
+
+theorem eq_mds_multiply_s_s_8 (state_8 : Nat) :
+    Gen.Mds12.mds_multiply.s_s_8 state_8 =
+      (state_8) := by
+  rw [Gen.Mds12.mds_multiply.s_s_8]
+
+theorem eq_mds_multiply_s_state_h_8_1 (s_8 : Nat) :
+    Gen.Mds12.mds_multiply.s_state_h_8_1 s_8 =
+      (s_8 / 4294967296) := by
+  rw [Gen.Mds12.mds_multiply.s_state_h_8_1]
+
+theorem eq_mds_multiply_s_state_l_8_1 (s_8 : Nat) :
+    Gen.Mds12.mds_multiply.s_state_l_8_1 s_8 =
+      (s_8 % 4294967296) := by
+  rw [Gen.Mds12.mds_multiply.s_state_l_8_1]
+
+theorem eq_mds_multiply_s_s_9 (state_9 : Nat) :
+    Gen.Mds12.mds_multiply.s_s_9 state_9 =
+      (state_9) := by
+  rw [Gen.Mds12.mds_multiply.s_s_9]
+
+theorem eq_mds_multiply_s_state_h_9_1 (s_9 : Nat) :
+    Gen.Mds12.mds_multiply.s_state_h_9_1 s_9 =
+      (s_9 / 4294967296) := by
+  rw [Gen.Mds12.mds_multiply.s_state_h_9_1]
+
+theorem eq_mds_multiply_s_state_l_9_1 (s_9 : Nat) :
+    Gen.Mds12.mds_multiply.s_state_l_9_1 s_9 =
+      (s_9 % 4294967296) := by
+  rw [Gen.Mds12.mds_multiply.s_state_l_9_1]
+
+theorem eq_mds_multiply_s_s_10 (state_10 : Nat) :
+    Gen.Mds12.mds_multiply.s_s_10 state_10 =
+      (state_10) := by
+  rw [Gen.Mds12.mds_multiply.s_s_10]
+
+theorem eq_mds_multiply_s_state_h_10_1 (s_10 : Nat) :
+    Gen.Mds12.mds_multiply.s_state_h_10_1 s_10 =
+      (s_10 / 4294967296) := by
+  rw [Gen.Mds12.mds_multiply.s_state_h_10_1]
+
+theorem eq_mds_multiply_s_state_l_10_1 (s_10 : Nat) :
+    Gen.Mds12.mds_multiply.s_state_l_10_1 s_10 =
+      (s_10 % 4294967296) := by
+  rw [Gen.Mds12.mds_multiply.s_state_l_10_1]
+
+theorem eq_mds_multiply_s_s_11 (state_11 : Nat) :
+    Gen.Mds12.mds_multiply.s_s_11 state_11 =
+      (state_11) := by
+  rw [Gen.Mds12.mds_multiply.s_s_11]
+
+theorem eq_mds_multiply_s_state_h_11_1 (s_11 : Nat) :
+    Gen.Mds12.mds_multiply.s_state_h_11_1 s_11 =
+      (s_11 / 4294967296) := by
+  rw [Gen.Mds12.mds_multiply.s_state_h_11_1]
+
+theorem eq_mds_multiply_s_state_l_11_1 (s_11 : Nat) :
+    Gen.Mds12.mds_multiply.s_state_l_11_1 s_11 =
+      (s_11 % 4294967296) := by
+  rw [Gen.Mds12.mds_multiply.s_state_l_11_1]
+
+theorem eq_mds_multiply_s_r (state_h_0_1 : Nat) (state_h_1_1 : Nat) (state_h_2_1 : Nat) (state_h_3_1 : Nat) (state_h_4_1 : Nat) (state_h_5_1 : Nat) (state_h_6_1 : Nat) (state_h_7_1 : Nat) (state_h_8_1 : Nat) (state_h_9_1 : Nat) (state_h_10_1 : Nat) (state_h_11_1 : Nat) :
+    Gen.Mds12.mds_multiply.s_r state_h_0_1 state_h_1_1 state_h_2_1 state_h_3_1 state_h_4_1 state_h_5_1 state_h_6_1 state_h_7_1 state_h_8_1 state_h_9_1 state_h_10_1 state_h_11_1 =
+      (mds_multiply_freq state_h_0_1 state_h_1_1 state_h_2_1 state_h_3_1 state_h_4_1 state_h_5_1 state_h_6_1 state_h_7_1 state_h_8_1 state_h_9_1 state_h_10_1 state_h_11_1) := by
+  rw [Gen.Mds12.mds_multiply.s_r]
+
+theorem eq_mds_multiply_s_state_h_0_2 (r : Nat × Nat × Nat × Nat × Nat × Nat × Nat × Nat × Nat × Nat × Nat × Nat) :
+    Gen.Mds12.mds_multiply.s_state_h_0_2 r =
+      (r.1) := by
+  rw [Gen.Mds12.mds_multiply.s_state_h_0_2]
+
+theorem eq_mds_multiply_s_state_h_1_2 (r : Nat × Nat × Nat × Nat × Nat × Nat × Nat × Nat × Nat × Nat × Nat × Nat) :
+    Gen.Mds12.mds_multiply.s_state_h_1_2 r =
+      (r.2.1) := by
+  rw [Gen.Mds12.mds_multiply.s_state_h_1_2]
+
+theorem eq_mds_multiply_s_state_h_2_2 (r : Nat × Nat × Nat × Nat × Nat × Nat × Nat × Nat × Nat × Nat × Nat × Nat) :
+    Gen.Mds12.mds_multiply.s_state_h_2_2 r =
+      (r.2.2.1) := by
+  rw [Gen.Mds12.mds_multiply.s_state_h_2_2]
+
+theorem eq_mds_multiply_s_state_h_3_2 (r : Nat × Nat × Nat × Nat × Nat × Nat × Nat × Nat × Nat × Nat × Nat × Nat) :
+    Gen.Mds12.mds_multiply.s_state_h_3_2 r =
+      (r.2.2.2.1) := by
+  rw [Gen.Mds12.mds_multiply.s_state_h_3_2]
+
+theorem eq_mds_multiply_s_state_h_4_2 (r : Nat × Nat × Nat × Nat × Nat × Nat × Nat × Nat × Nat × Nat × Nat × Nat) :
+    Gen.Mds12.mds_multiply.s_state_h_4_2 r =
+      (r.2.2.2.2.1) := by
+  rw [Gen.Mds12.mds_multiply.s_state_h_4_2]
+
+theorem eq_mds_multiply_s_state_h_5_2 (r : Nat × Nat × Nat × Nat × Nat × Nat × Nat × Nat × Nat × Nat × Nat × Nat) :
+    Gen.Mds12.mds_multiply.s_state_h_5_2 r =
+      (r.2.2.2.2.2.1) := by
+  rw [Gen.Mds12.mds_multiply.s_state_h_5_2]
+
+theorem eq_mds_multiply_s_state_h_6_2 (r : Nat × Nat × Nat × Nat × Nat × Nat × Nat × Nat × Nat × Nat × Nat × Nat) :
+    Gen.Mds12.mds_multiply.s_state_h_6_2 r =
+      (r.2.2.2.2.2.2.1) := by
+  rw [Gen.Mds12.mds_multiply.s_state_h_6_2]
+
+theorem eq_mds_multiply_s_state_h_7_2 (r : Nat × Nat × Nat × Nat × Nat × Nat × Nat × Nat × Nat × Nat × Nat × Nat) :
+    Gen.Mds12.mds_multiply.s_state_h_7_2 r =
+      (r.2.2.2.2.2.2.2.1) := by
+  rw [Gen.Mds12.mds_multiply.s_state_h_7_2]
+
+theorem eq_mds_multiply_s_state_h_8_2 (r : Nat × Nat × Nat × Nat × Nat × Nat × Nat × Nat × Nat × Nat × Nat × Nat) :
+    Gen.Mds12.mds_multiply.s_state_h_8_2 r =
+      (r.2.2.2.2.2.2.2.2.1) := by
+  rw [Gen.Mds12.mds_multiply.s_state_h_8_2]
+
+theorem eq_mds_multiply_s_state_h_9_2 (r : Nat × Nat × Nat × Nat × Nat × Nat × Nat × Nat × Nat × Nat × Nat × Nat) :
+    Gen.Mds12.mds_multiply.s_state_h_9_2 r =
+      (r.2.2.2.2.2.2.2.2.2.1) := by
+  rw [Gen.Mds12.mds_multiply.s_state_h_9_2]
+
+theorem eq_mds_multiply_s_state_h_10_2 (r : Nat × Nat × Nat × Nat × Nat × Nat × Nat × Nat × Nat × Nat × Nat × Nat) :
+    Gen.Mds12.mds_multiply.s_state_h_10_2 r =
+      (r.2.2.2.2.2.2.2.2.2.2.1) := by
+  rw [Gen.Mds12.mds_multiply.s_state_h_10_2]
+
+theorem eq_mds_multiply_s_state_h_11_2 (r : Nat × Nat × Nat × Nat × Nat × Nat × Nat × Nat × Nat × Nat × Nat × Nat) :
+    Gen.Mds12.mds_multiply.s_state_h_11_2 r =
+      (r.2.2.2.2.2.2.2.2.2.2.2) := by
+  rw [Gen.Mds12.mds_multiply.s_state_h_11_2]
+
+theorem eq_mds_multiply_s_r_1 (state_l_0_1 : Nat) (state_l_1_1 : Nat) (state_l_2_1 : Nat) (state_l_3_1 : Nat) (state_l_4_1 : Nat) (state_l_5_1 : Nat) (state_l_6_1 : Nat) (state_l_7_1 : Nat) (state_l_8_1 : Nat) (state_l_9_1 : Nat) (state_l_10_1 : Nat) (state_l_11_1 : Nat) :
+    Gen.Mds12.mds_multiply.s_r_1 state_l_0_1 state_l_1_1 state_l_2_1 state_l_3_1 state_l_4_1 state_l_5_1 state_l_6_1 state_l_7_1 state_l_8_1 state_l_9_1 state_l_10_1 state_l_11_1 =
+      (mds_multiply_freq state_l_0_1 state_l_1_1 state_l_2_1 state_l_3_1 state_l_4_1 state_l_5_1 state_l_6_1 state_l_7_1 state_l_8_1 state_l_9_1 state_l_10_1 state_l_11_1) := by
+  rw [Gen.Mds12.mds_multiply.s_r_1]
+
+theorem eq_mds_multiply_s_state_l_0_2 (r_1 : Nat × Nat × Nat × Nat × Nat × Nat × Nat × Nat × Nat × Nat × Nat × Nat) :
+    Gen.Mds12.mds_multiply.s_state_l_0_2 r_1 =
+      (r_1.1) := by
+  rw [Gen.Mds12.mds_multiply.s_state_l_0_2]
+
+theorem eq_mds_multiply_s_state_l_1_2 (r_1 : Nat × Nat × Nat × Nat × Nat × Nat × Nat × Nat × Nat × Nat × Nat × Nat) :
+    Gen.Mds12.mds_multiply.s_state_l_1_2 r_1 =
+      (r_1.2.1) := by
+  rw [Gen.Mds12.mds_multiply.s_state_l_1_2]
+
+theorem eq_mds_multiply_s_state_l_2_2 (r_1 : Nat × Nat × Nat × Nat × Nat × Nat × Nat × Nat × Nat × Nat × Nat × Nat) :
+    Gen.Mds12.mds_multiply.s_state_l_2_2 r_1 =
+      (r_1.2.2.1) := by
+  rw [Gen.Mds12.mds_multiply.s_state_l_2_2]
+
+theorem eq_mds_multiply_s_state_l_3_2 (r_1 : Nat × Nat × Nat × Nat × Nat × Nat × Nat × Nat × Nat × Nat × Nat × Nat) :
+    Gen.Mds12.mds_multiply.s_state_l_3_2 r_1 =
+      (r_1.2.2.2.1) := by
+  rw [Gen.Mds12.mds_multiply.s_state_l_3_2]
+
+theorem eq_mds_multiply_s_state_l_4_2 (r_1 : Nat × Nat × Nat × Nat × Nat × Nat × Nat × Nat × Nat × Nat × Nat × Nat) :
+    Gen.Mds12.mds_multiply.s_state_l_4_2 r_1 =
+      (r_1.2.2.2.2.1) := by
+  rw [Gen.Mds12.mds_multiply.s_state_l_4_2]
+
+theorem eq_mds_multiply_s_state_l_5_2 (r_1 : Nat × Nat × Nat × Nat × Nat × Nat × Nat × Nat × Nat × Nat × Nat × Nat) :
+    Gen.Mds12.mds_multiply.s_state_l_5_2 r_1 =
+      (r_1.2.2.2.2.2.1) := by
+  rw [Gen.Mds12.mds_multiply.s_state_l_5_2]
+
+theorem eq_mds_multiply_s_state_l_6_2 (r_1 : Nat × Nat × Nat × Nat × Nat × Nat × Nat × Nat × Nat × Nat × Nat × Nat) :
+    Gen.Mds12.mds_multiply.s_state_l_6_2 r_1 =
+      (r_1.2.2.2.2.2.2.1) := by
+  rw [Gen.Mds12.mds_multiply.s_state_l_6_2]
+
+theorem eq_mds_multiply_s_state_l_7_2 (r_1 : Nat × Nat × Nat × Nat × Nat × Nat × Nat × Nat × Nat × Nat × Nat × Nat) :
+    Gen.Mds12.mds_multiply.s_state_l_7_2 r_1 =
+      (r_1.2.2.2.2.2.2.2.1) := by
+  rw [Gen.Mds12.mds_multiply.s_state_l_7_2]
+
+theorem eq_mds_multiply_s_state_l_8_2 (r_1 : Nat × Nat × Nat × Nat × Nat × Nat × Nat × Nat × Nat × Nat × Nat × Nat) :
+    Gen.Mds12.mds_multiply.s_state_l_8_2 r_1 =
+      (r_1.2.2.2.2.2.2.2.2.1) := by
+  rw [Gen.Mds12.mds_multiply.s_state_l_8_2]
+
+theorem eq_mds_multiply_s_state_l_9_2 (r_1 : Nat × Nat × Nat × Nat × Nat × Nat × Nat × Nat × Nat × Nat × Nat × Nat) :
+    Gen.Mds12.mds_multiply.s_state_l_9_2 r_1 =
+      (r_1.2.2.2.2.2.2.2.2.2.1) := by
+  rw [Gen.Mds12.mds_multiply.s_state_l_9_2]
+
+theorem eq_mds_multiply_s_state_l_10_2 (r_1 : Nat × Nat × Nat × Nat × Nat × Nat × Nat × Nat × Nat × Nat × Nat × Nat) :
+    Gen.Mds12.mds_multiply.s_state_l_10_2 r_1 =
+      (r_1.2.2.2.2.2.2.2.2.2.2.1) := by
+  rw [Gen.Mds12.mds_multiply.s_state_l_10_2]
+
+theorem eq_mds_multiply_s_state_l_11_2 (r_1 : Nat × Nat × Nat × Nat × Nat × Nat × Nat × Nat × Nat × Nat × Nat × Nat) :
+    Gen.Mds12.mds_multiply.s_state_l_11_2 r_1 =
+      (r_1.2.2.2.2.2.2.2.2.2.2.2) := by
+  rw [Gen.Mds12.mds_multiply.s_state_l_11_2]
+
+theorem eq_mds_multiply_s_s_12 (state_h_0_2 : Nat) (state_l_0_2 : Nat) :
+    Gen.Mds12.mds_multiply.s_s_12 state_h_0_2 state_l_0_2 =
+      (state_l_0_2 + (state_h_0_2 * 4294967296 % 340282366920938463463374607431768211456)) := by
+  rw [Gen.Mds12.mds_multiply.s_s_12]
+
+theorem eq_mds_multiply_s_s_hi (s_12 : Nat) :
+    Gen.Mds12.mds_multiply.s_s_hi s_12 =
+      ((s_12 / 18446744073709551616) % 18446744073709551616) := by
+  rw [Gen.Mds12.mds_multiply.s_s_hi]
+
+theorem eq_mds_multiply_s_s_lo (s_12 : Nat) :
+    Gen.Mds12.mds_multiply.s_s_lo s_12 =
+      (s_12 % 18446744073709551616) := by
+  rw [Gen.Mds12.mds_multiply.s_s_lo]
+
+theorem eq_mds_multiply_s_z (s_hi : Nat) :
+    Gen.Mds12.mds_multiply.s_z s_hi =
+      ((s_hi * 4294967296 % 18446744073709551616) - s_hi) := by
+  rw [Gen.Mds12.mds_multiply.s_z]
+
+theorem eq_mds_multiply_s_res (s_lo : Nat) (z : Nat) :
+    Gen.Mds12.mds_multiply.s_res s_lo z =
+      ((s_lo + z) % 18446744073709551616) := by
+  rw [Gen.Mds12.mds_multiply.s_res]
+
+theorem eq_mds_multiply_s_over (s_lo : Nat) (z : Nat) :
+    Gen.Mds12.mds_multiply.s_over s_lo z =
+      (decide (18446744073709551616 ≤ s_lo + z)) := by
+  rw [Gen.Mds12.mds_multiply.s_over]
+
+theorem eq_mds_multiply_s_result_0_1 (res : Nat) (over : Bool) :
+    Gen.Mds12.mds_multiply.s_result_0_1 res over =
+      ((res + ((0 + 4294967296 - (if over = true then 1 else 0)) % 4294967296)) % 18446744073709551616) := by
+  rw [Gen.Mds12.mds_multiply.s_result_0_1]
+
+theorem eq_mds_multiply_s_s_13 (state_h_1_2 : Nat) (state_l_1_2 : Nat) :
+    Gen.Mds12.mds_multiply.s_s_13 state_h_1_2 state_l_1_2 =
+      (state_l_1_2 + (state_h_1_2 * 4294967296 % 340282366920938463463374607431768211456)) := by
+  rw [Gen.Mds12.mds_multiply.s_s_13]
+
+theorem eq_mds_multiply_s_s_hi_1 (s_13 : Nat) :
+    Gen.Mds12.mds_multiply.s_s_hi_1 s_13 =
+      ((s_13 / 18446744073709551616) % 18446744073709551616) := by
+  rw [Gen.Mds12.mds_multiply.s_s_hi_1]
+
+theorem eq_mds_multiply_s_s_lo_1 (s_13 : Nat) :
+    Gen.Mds12.mds_multiply.s_s_lo_1 s_13 =
+      (s_13 % 18446744073709551616) := by
+  rw [Gen.Mds12.mds_multiply.s_s_lo_1]
+
+theorem eq_mds_multiply_s_z_1 (s_hi_1 : Nat) :
+    Gen.Mds12.mds_multiply.s_z_1 s_hi_1 =
+      ((s_hi_1 * 4294967296 % 18446744073709551616) - s_hi_1) := by
+  rw [Gen.Mds12.mds_multiply.s_z_1]
+
+theorem eq_mds_multiply_s_res_1 (s_lo_1 : Nat) (z_1 : Nat) :
+    Gen.Mds12.mds_multiply.s_res_1 s_lo_1 z_1 =
+      ((s_lo_1 + z_1) % 18446744073709551616) := by
+  rw [Gen.Mds12.mds_multiply.s_res_1]
+
+theorem eq_mds_multiply_s_over_1 (s_lo_1 : Nat) (z_1 : Nat) :
+    Gen.Mds12.mds_multiply.s_over_1 s_lo_1 z_1 =
+      (decide (18446744073709551616 ≤ s_lo_1 + z_1)) := by
+  rw [Gen.Mds12.mds_multiply.s_over_1]
+
+theorem eq_mds_multiply_s_result_1_1 (res_1 : Nat) (over_1 : Bool) :
+    Gen.Mds12.mds_multiply.s_result_1_1 res_1 over_1 =
+      ((res_1 + ((0 + 4294967296 - (if over_1 = true then 1 else 0)) % 4294967296)) % 18446744073709551616) := by
+  rw [Gen.Mds12.mds_multiply.s_result_1_1]
+
+theorem eq_mds_multiply_s_s_14 (state_h_2_2 : Nat) (state_l_2_2 : Nat) :
+    Gen.Mds12.mds_multiply.s_s_14 state_h_2_2 state_l_2_2 =
+      (state_l_2_2 + (state_h_2_2 * 4294967296 % 340282366920938463463374607431768211456)) := by
+  rw [Gen.Mds12.mds_multiply.s_s_14]
+
+theorem eq_mds_multiply_s_s_hi_2 (s_14 : Nat) :
+    Gen.Mds12.mds_multiply.s_s_hi_2 s_14 =
+      ((s_14 / 18446744073709551616) % 18446744073709551616) := by
+  rw [Gen.Mds12.mds_multiply.s_s_hi_2]
+
+theorem eq_mds_multiply_s_s_lo_2 (s_14 : Nat) :
+    Gen.Mds12.mds_multiply.s_s_lo_2 s_14 =
+      (s_14 % 18446744073709551616) := by
+  rw [Gen.Mds12.mds_multiply.s_s_lo_2]
+
+theorem eq_mds_multiply_s_z_2 (s_hi_2 : Nat) :
+    Gen.Mds12.mds_multiply.s_z_2 s_hi_2 =
+      ((s_hi_2 * 4294967296 % 18446744073709551616) - s_hi_2) := by
+  rw [Gen.Mds12.mds_multiply.s_z_2]
+
+theorem eq_mds_multiply_s_res_2 (s_lo_2 : Nat) (z_2 : Nat) :
+    Gen.Mds12.mds_multiply.s_res_2 s_lo_2 z_2 =
+      ((s_lo_2 + z_2) % 18446744073709551616) := by
+  rw [Gen.Mds12.mds_multiply.s_res_2]
+
+theorem eq_mds_multiply_s_over_2 (s_lo_2 : Nat) (z_2 : Nat) :
+    Gen.Mds12.mds_multiply.s_over_2 s_lo_2 z_2 =
+      (decide (18446744073709551616 ≤ s_lo_2 + z_2)) := by
+  rw [Gen.Mds12.mds_multiply.s_over_2]
+
+theorem eq_mds_multiply_s_result_2_1 (res_2 : Nat) (over_2 : Bool) :
+    Gen.Mds12.mds_multiply.s_result_2_1 res_2 over_2 =
+      ((res_2 + ((0 + 4294967296 - (if over_2 = true then 1 else 0)) % 4294967296)) % 18446744073709551616) := by
+  rw [Gen.Mds12.mds_multiply.s_result_2_1]
+
+theorem eq_mds_multiply_s_s_15 (state_h_3_2 : Nat) (state_l_3_2 : Nat) :
+    Gen.Mds12.mds_multiply.s_s_15 state_h_3_2 state_l_3_2 =
+      (state_l_3_2 + (state_h_3_2 * 4294967296 % 340282366920938463463374607431768211456)) := by
+  rw [Gen.Mds12.mds_multiply.s_s_15]
+
+theorem eq_mds_multiply_s_s_hi_3 (s_15 : Nat) :
+    Gen.Mds12.mds_multiply.s_s_hi_3 s_15 =
+      ((s_15 / 18446744073709551616) % 18446744073709551616) := by
+  rw [Gen.Mds12.mds_multiply.s_s_hi_3]
+
+theorem eq_mds_multiply_s_s_lo_3 (s_15 : Nat) :
+    Gen.Mds12.mds_multiply.s_s_lo_3 s_15 =
+      (s_15 % 18446744073709551616) := by
+  rw [Gen.Mds12.mds_multiply.s_s_lo_3]
+
+theorem eq_mds_multiply_s_z_3 (s_hi_3 : Nat) :
+    Gen.Mds12.mds_multiply.s_z_3 s_hi_3 =
+      ((s_hi_3 * 4294967296 % 18446744073709551616) - s_hi_3) := by
+  rw [Gen.Mds12.mds_multiply.s_z_3]
+
+theorem eq_mds_multiply_s_res_3 (s_lo_3 : Nat) (z_3 : Nat) :
+    Gen.Mds12.mds_multiply.s_res_3 s_lo_3 z_3 =
+      ((s_lo_3 + z_3) % 18446744073709551616) := by
+  rw [Gen.Mds12.mds_multiply.s_res_3]
+
+theorem eq_mds_multiply_s_over_3 (s_lo_3 : Nat) (z_3 : Nat) :
+    Gen.Mds12.mds_multiply.s_over_3 s_lo_3 z_3 =
+      (decide (18446744073709551616 ≤ s_lo_3 + z_3)) := by
+  rw [Gen.Mds12.mds_multiply.s_over_3]
+
+theorem eq_mds_multiply_s_result_3_1 (res_3 : Nat) (over_3 : Bool) :
+    Gen.Mds12.mds_multiply.s_result_3_1 res_3 over_3 =
+      ((res_3 + ((0 + 4294967296 - (if over_3 = true then 1 else 0)) % 4294967296)) % 18446744073709551616) := by
+  rw [Gen.Mds12.mds_multiply.s_result_3_1]
+
+theorem eq_mds_multiply_s_s_16 (state_h_4_2 : Nat) (state_l_4_2 : Nat) :
+    Gen.Mds12.mds_multiply.s_s_16 state_h_4_2 state_l_4_2 =
+      (state_l_4_2 + (state_h_4_2 * 4294967296 % 340282366920938463463374607431768211456)) := by
+  rw [Gen.Mds12.mds_multiply.s_s_16]
+
+theorem eq_mds_multiply_s_s_hi_4 (s_16 : Nat) :
+    Gen.Mds12.mds_multiply.s_s_hi_4 s_16 =
+      ((s_16 / 18446744073709551616) % 18446744073709551616) := by
+  rw [Gen.Mds12.mds_multiply.s_s_hi_4]
+
+theorem eq_mds_multiply_s_s_lo_4 (s_16 : Nat) :
+    Gen.Mds12.mds_multiply.s_s_lo_4 s_16 =
+      (s_16 % 18446744073709551616) := by
+  rw [Gen.Mds12.mds_multiply.s_s_lo_4]
+
+theorem eq_mds_multiply_s_z_4 (s_hi_4 : Nat) :
+    Gen.Mds12.mds_multiply.s_z_4 s_hi_4 =
+      ((s_hi_4 * 4294967296 % 18446744073709551616) - s_hi_4) := by
+  rw [Gen.Mds12.mds_multiply.s_z_4]
+
+theorem eq_mds_multiply_s_res_4 (s_lo_4 : Nat) (z_4 : Nat) :
+    Gen.Mds12.mds_multiply.s_res_4 s_lo_4 z_4 =
+      ((s_lo_4 + z_4) % 18446744073709551616) := by
+  rw [Gen.Mds12.mds_multiply.s_res_4]
+
+theorem eq_mds_multiply_s_over_4 (s_lo_4 : Nat) (z_4 : Nat) :
+    Gen.Mds12.mds_multiply.s_over_4 s_lo_4 z_4 =
+      (decide (18446744073709551616 ≤ s_lo_4 + z_4)) := by
+  rw [Gen.Mds12.mds_multiply.s_over_4]
+
+theorem eq_mds_multiply_s_result_4_1 (res_4 : Nat) (over_4 : Bool) :
+    Gen.Mds12.mds_multiply.s_result_4_1 res_4 over_4 =
+      ((res_4 + ((0 + 4294967296 - (if over_4 = true then 1 else 0)) % 4294967296)) % 18446744073709551616) := by
+  rw [Gen.Mds12.mds_multiply.s_result_4_1]
+
+theorem eq_mds_multiply_s_s_17 (state_h_5_2 : Nat) (state_l_5_2 : Nat) :
+    Gen.Mds12.mds_multiply.s_s_17 state_h_5_2 state_l_5_2 =
+      (state_l_5_2 + (state_h_5_2 * 4294967296 % 340282366920938463463374607431768211456)) := by
+  rw [Gen.Mds12.mds_multiply.s_s_17]
+
+theorem eq_mds_multiply_s_s_hi_5 (s_17 : Nat) :
+    Gen.Mds12.mds_multiply.s_s_hi_5 s_17 =
+      ((s_17 / 18446744073709551616) % 18446744073709551616) := by
+  rw [Gen.Mds12.mds_multiply.s_s_hi_5]
+
+theorem eq_mds_multiply_s_s_lo_5 (s_17 : Nat) :
+    Gen.Mds12.mds_multiply.s_s_lo_5 s_17 =
+      (s_17 % 18446744073709551616) := by
+  rw [Gen.Mds12.mds_multiply.s_s_lo_5]
+
+theorem eq_mds_multiply_s_z_5 (s_hi_5 : Nat) :
+    Gen.Mds12.mds_multiply.s_z_5 s_hi_5 =
+      ((s_hi_5 * 4294967296 % 18446744073709551616) - s_hi_5) := by
+  rw [Gen.Mds12.mds_multiply.s_z_5]
+
+theorem eq_mds_multiply_s_res_5 (s_lo_5 : Nat) (z_5 : Nat) :
+    Gen.Mds12.mds_multiply.s_res_5 s_lo_5 z_5 =
+      ((s_lo_5 + z_5) % 18446744073709551616) := by
+  rw [Gen.Mds12.mds_multiply.s_res_5]
+
+theorem eq_mds_multiply_s_over_5 (s_lo_5 : Nat) (z_5 : Nat) :
+    Gen.Mds12.mds_multiply.s_over_5 s_lo_5 z_5 =
+      (decide (18446744073709551616 ≤ s_lo_5 + z_5)) := by
+  rw [Gen.Mds12.mds_multiply.s_over_5]
+
+theorem eq_mds_multiply_s_result_5_1 (res_5 : Nat) (over_5 : Bool) :
+    Gen.Mds12.mds_multiply.s_result_5_1 res_5 over_5 =
+      ((res_5 + ((0 + 4294967296 - (if over_5 = true then 1 else 0)) % 4294967296)) % 18446744073709551616) := by
+  rw [Gen.Mds12.mds_multiply.s_result_5_1]
+
+theorem eq_mds_multiply_s_s_18 (state_h_6_2 : Nat) (state_l_6_2 : Nat) :
+    Gen.Mds12.mds_multiply.s_s_18 state_h_6_2 state_l_6_2 =
+      (state_l_6_2 + (state_h_6_2 * 4294967296 % 340282366920938463463374607431768211456)) := by
+  rw [Gen.Mds12.mds_multiply.s_s_18]
+
+theorem eq_mds_multiply_s_s_hi_6 (s_18 : Nat) :
+    Gen.Mds12.mds_multiply.s_s_hi_6 s_18 =
+      ((s_18 / 18446744073709551616) % 18446744073709551616) := by
+  rw [Gen.Mds12.mds_multiply.s_s_hi_6]
+
+theorem eq_mds_multiply_s_s_lo_6 (s_18 : Nat) :
+    Gen.Mds12.mds_multiply.s_s_lo_6 s_18 =
+      (s_18 % 18446744073709551616) := by
+  rw [Gen.Mds12.mds_multiply.s_s_lo_6]
+
+theorem eq_mds_multiply_s_z_6 (s_hi_6 : Nat) :
+    Gen.Mds12.mds_multiply.s_z_6 s_hi_6 =
+      ((s_hi_6 * 4294967296 % 18446744073709551616) - s_hi_6) := by
+  rw [Gen.Mds12.mds_multiply.s_z_6]
+
+theorem eq_mds_multiply_s_res_6 (s_lo_6 : Nat) (z_6 : Nat) :
+    Gen.Mds12.mds_multiply.s_res_6 s_lo_6 z_6 =
+      ((s_lo_6 + z_6) % 18446744073709551616) := by
+  rw [Gen.Mds12.mds_multiply.s_res_6]
+
+theorem eq_mds_multiply_s_over_6 (s_lo_6 : Nat) (z_6 : Nat) :
+    Gen.Mds12.mds_multiply.s_over_6 s_lo_6 z_6 =
+      (decide (18446744073709551616 ≤ s_lo_6 + z_6)) := by
+  rw [Gen.Mds12.mds_multiply.s_over_6]
+
+theorem eq_mds_multiply_s_result_6_1 (res_6 : Nat) (over_6 : Bool) :
+    Gen.Mds12.mds_multiply.s_result_6_1 res_6 over_6 =
+      ((res_6 + ((0 + 4294967296 - (if over_6 = true then 1 else 0)) % 4294967296)) % 18446744073709551616) := by
+  rw [Gen.Mds12.mds_multiply.s_result_6_1]
+
+theorem eq_mds_multiply_s_s_19 (state_h_7_2 : Nat) (state_l_7_2 : Nat) :
+    Gen.Mds12.mds_multiply.s_s_19 state_h_7_2 state_l_7_2 =
+      (state_l_7_2 + (state_h_7_2 * 4294967296 % 340282366920938463463374607431768211456)) := by
+  rw [Gen.Mds12.mds_multiply.s_s_19]
+
+theorem eq_mds_multiply_s_s_hi_7 (s_19 : Nat) :
+    Gen.Mds12.mds_multiply.s_s_hi_7 s_19 =
+      ((s_19 / 18446744073709551616) % 18446744073709551616) := by
+  rw [Gen.Mds12.mds_multiply.s_s_hi_7]
+
+theorem eq_mds_multiply_s_s_lo_7 (s_19 : Nat) :
+    Gen.Mds12.mds_multiply.s_s_lo_7 s_19 =
+      (s_19 % 18446744073709551616) := by
+  rw [Gen.Mds12.mds_multiply.s_s_lo_7]
+
+theorem eq_mds_multiply_s_z_7 (s_hi_7 : Nat) :
+    Gen.Mds12.mds_multiply.s_z_7 s_hi_7 =
+      ((s_hi_7 * 4294967296 % 18446744073709551616) - s_hi_7) := by
+  rw [Gen.Mds12.mds_multiply.s_z_7]
+
+theorem eq_mds_multiply_s_res_7 (s_lo_7 : Nat) (z_7 : Nat) :
+    Gen.Mds12.mds_multiply.s_res_7 s_lo_7 z_7 =
+      ((s_lo_7 + z_7) % 18446744073709551616) := by
+  rw [Gen.Mds12.mds_multiply.s_res_7]
+
+theorem eq_mds_multiply_s_over_7 (s_lo_7 : Nat) (z_7 : Nat) :
+    Gen.Mds12.mds_multiply.s_over_7 s_lo_7 z_7 =
+      (decide (18446744073709551616 ≤ s_lo_7 + z_7)) := by
+  rw [Gen.Mds12.mds_multiply.s_over_7]
+
+theorem eq_mds_multiply_s_result_7_1 (res_7 : Nat) (over_7 : Bool) :
+    Gen.Mds12.mds_multiply.s_result_7_1 res_7 over_7 =
+      ((res_7 + ((0 + 4294967296 - (if over_7 = true then 1 else 0)) % 4294967296)) % 18446744073709551616) := by
+  rw [Gen.Mds12.mds_multiply.s_result_7_1]
+
+theorem eq_mds_multiply_s_s_20 (state_h_8_2 : Nat) (state_l_8_2 : Nat) :
+    Gen.Mds12.mds_multiply.s_s_20 state_h_8_2 state_l_8_2 =
+      (state_l_8_2 + (state_h_8_2 * 4294967296 % 340282366920938463463374607431768211456)) := by
+  rw [Gen.Mds12.mds_multiply.s_s_20]
+
+theorem eq_mds_multiply_s_s_hi_8 (s_20 : Nat) :
+    Gen.Mds12.mds_multiply.s_s_hi_8 s_20 =
+      ((s_20 / 18446744073709551616) % 18446744073709551616) := by
+  rw [Gen.Mds12.mds_multiply.s_s_hi_8]
+
+theorem eq_mds_multiply_s_s_lo_8 (s_20 : Nat) :
+    Gen.Mds12.mds_multiply.s_s_lo_8 s_20 =
+      (s_20 % 18446744073709551616) := by
+  rw [Gen.Mds12.mds_multiply.s_s_lo_8]
+
+theorem eq_mds_multiply_s_z_8 (s_hi_8 : Nat) :
+    Gen.Mds12.mds_multiply.s_z_8 s_hi_8 =
+      ((s_hi_8 * 4294967296 % 18446744073709551616) - s_hi_8) := by
+  rw [Gen.Mds12.mds_multiply.s_z_8]
+
+theorem eq_mds_multiply_s_res_8 (s_lo_8 : Nat) (z_8 : Nat) :
+    Gen.Mds12.mds_multiply.s_res_8 s_lo_8 z_8 =
+      ((s_lo_8 + z_8) % 18446744073709551616) := by
+  rw [Gen.Mds12.mds_multiply.s_res_8]
+
+theorem eq_mds_multiply_s_over_8 (s_lo_8 : Nat) (z_8 : Nat) :
+    Gen.Mds12.mds_multiply.s_over_8 s_lo_8 z_8 =
+      (decide (18446744073709551616 ≤ s_lo_8 + z_8)) := by
+  rw [Gen.Mds12.mds_multiply.s_over_8]
+
+theorem eq_mds_multiply_s_result_8_1 (res_8 : Nat) (over_8 : Bool) :
+    Gen.Mds12.mds_multiply.s_result_8_1 res_8 over_8 =
+      ((res_8 + ((0 + 4294967296 - (if over_8 = true then 1 else 0)) % 4294967296)) % 18446744073709551616) := by
+  rw [Gen.Mds12.mds_multiply.s_result_8_1]
+
+theorem eq_mds_multiply_s_s_21 (state_h_9_2 : Nat) (state_l_9_2 : Nat) :
+    Gen.Mds12.mds_multiply.s_s_21 state_h_9_2 state_l_9_2 =
+      (state_l_9_2 + (state_h_9_2 * 4294967296 % 340282366920938463463374607431768211456)) := by
+  rw [Gen.Mds12.mds_multiply.s_s_21]
+
+theorem eq_mds_multiply_s_s_hi_9 (s_21 : Nat) :
+    Gen.Mds12.mds_multiply.s_s_hi_9 s_21 =
+      ((s_21 / 18446744073709551616) % 18446744073709551616) := by
+  rw [Gen.Mds12.mds_multiply.s_s_hi_9]
+
+theorem eq_mds_multiply_s_s_lo_9 (s_21 : Nat) :
+    Gen.Mds12.mds_multiply.s_s_lo_9 s_21 =
+      (s_21 % 18446744073709551616) := by
+  rw [Gen.Mds12.mds_multiply.s_s_lo_9]
+
+theorem eq_mds_multiply_s_z_9 (s_hi_9 : Nat) :
+    Gen.Mds12.mds_multiply.s_z_9 s_hi_9 =
+      ((s_hi_9 * 4294967296 % 18446744073709551616) - s_hi_9) := by
+  rw [Gen.Mds12.mds_multiply.s_z_9]
+
+theorem eq_mds_multiply_s_res_9 (s_lo_9 : Nat) (z_9 : Nat) :
+    Gen.Mds12.mds_multiply.s_res_9 s_lo_9 z_9 =
+      ((s_lo_9 + z_9) % 18446744073709551616) := by
+  rw [Gen.Mds12.mds_multiply.s_res_9]
+
+theorem eq_mds_multiply_s_over_9 (s_lo_9 : Nat) (z_9 : Nat) :
+    Gen.Mds12.mds_multiply.s_over_9 s_lo_9 z_9 =
+      (decide (18446744073709551616 ≤ s_lo_9 + z_9)) := by
+  rw [Gen.Mds12.mds_multiply.s_over_9]
+
+theorem eq_mds_multiply_s_result_9_1 (res_9 : Nat) (over_9 : Bool) :
+    Gen.Mds12.mds_multiply.s_result_9_1 res_9 over_9 =
+      ((res_9 + ((0 + 4294967296 - (if over_9 = true then 1 else 0)) % 4294967296)) % 18446744073709551616) := by
+  rw [Gen.Mds12.mds_multiply.s_result_9_1]
+
+theorem eq_mds_multiply_s_s_22 (state_h_10_2 : Nat) (state_l_10_2 : Nat) :
+    Gen.Mds12.mds_multiply.s_s_22 state_h_10_2 state_l_10_2 =
+      (state_l_10_2 + (state_h_10_2 * 4294967296 % 340282366920938463463374607431768211456)) := by
+  rw [Gen.Mds12.mds_multiply.s_s_22]
+
+theorem eq_mds_multiply_s_s_hi_10 (s_22 : Nat) :
+    Gen.Mds12.mds_multiply.s_s_hi_10 s_22 =
+      ((s_22 / 18446744073709551616) % 18446744073709551616) := by
+  rw [Gen.Mds12.mds_multiply.s_s_hi_10]
+
+theorem eq_mds_multiply_s_s_lo_10 (s_22 : Nat) :
+    Gen.Mds12.mds_multiply.s_s_lo_10 s_22 =
+      (s_22 % 18446744073709551616) := by
+  rw [Gen.Mds12.mds_multiply.s_s_lo_10]
+
+theorem eq_mds_multiply_s_z_10 (s_hi_10 : Nat) :
+    Gen.Mds12.mds_multiply.s_z_10 s_hi_10 =
+      ((s_hi_10 * 4294967296 % 18446744073709551616) - s_hi_10) := by
+  rw [Gen.Mds12.mds_multiply.s_z_10]
+
+theorem eq_mds_multiply_s_res_10 (s_lo_10 : Nat) (z_10 : Nat) :
+    Gen.Mds12.mds_multiply.s_res_10 s_lo_10 z_10 =
+      ((s_lo_10 + z_10) % 18446744073709551616) := by
+  rw [Gen.Mds12.mds_multiply.s_res_10]
+
+theorem eq_mds_multiply_s_over_10 (s_lo_10 : Nat) (z_10 : Nat) :
+    Gen.Mds12.mds_multiply.s_over_10 s_lo_10 z_10 =
+      (decide (18446744073709551616 ≤ s_lo_10 + z_10)) := by
+  rw [Gen.Mds12.mds_multiply.s_over_10]
+
+theorem eq_mds_multiply_s_result_10_1 (res_10 : Nat) (over_10 : Bool) :
+    Gen.Mds12.mds_multiply.s_result_10_1 res_10 over_10 =
+      ((res_10 + ((0 + 4294967296 - (if over_10 = true then 1 else 0)) % 4294967296)) % 18446744073709551616) := by
+  rw [Gen.Mds12.mds_multiply.s_result_10_1]
+
+theorem eq_mds_multiply_s_s_23 (state_h_11_2 : Nat) (state_l_11_2 : Nat) :
+    Gen.Mds12.mds_multiply.s_s_23 state_h_11_2 state_l_11_2 =
+      (state_l_11_2 + (state_h_11_2 * 4294967296 % 340282366920938463463374607431768211456)) := by
+  rw [Gen.Mds12.mds_multiply.s_s_23]
+
+theorem eq_mds_multiply_s_s_hi_11 (s_23 : Nat) :
+    Gen.Mds12.mds_multiply.s_s_hi_11 s_23 =
+      ((s_23 / 18446744073709551616) % 18446744073709551616) := by
+  rw [Gen.Mds12.mds_multiply.s_s_hi_11]
+
+theorem eq_mds_multiply_s_s_lo_11 (s_23 : Nat) :
+    Gen.Mds12.mds_multiply.s_s_lo_11 s_23 =
+      (s_23 % 18446744073709551616) := by
+  rw [Gen.Mds12.mds_multiply.s_s_lo_11]
+
+theorem eq_mds_multiply_s_z_11 (s_hi_11 : Nat) :
+    Gen.Mds12.mds_multiply.s_z_11 s_hi_11 =
+      ((s_hi_11 * 4294967296 % 18446744073709551616) - s_hi_11) := by
+  rw [Gen.Mds12.mds_multiply.s_z_11]
+
+theorem eq_mds_multiply_s_res_11 (s_lo_11 : Nat) (z_11 : Nat) :
+    Gen.Mds12.mds_multiply.s_res_11 s_lo_11 z_11 =
+      ((s_lo_11 + z_11) % 18446744073709551616) := by
+  rw [Gen.Mds12.mds_multiply.s_res_11]
+
+theorem eq_mds_multiply_s_over_11 (s_lo_11 : Nat) (z_11 : Nat) :
+    Gen.Mds12.mds_multiply.s_over_11 s_lo_11 z_11 =
+      (decide (18446744073709551616 ≤ s_lo_11 + z_11)) := by
+  rw [Gen.Mds12.mds_multiply.s_over_11]
+
+theorem eq_mds_multiply_s_result_11_1 (res_11 : Nat) (over_11 : Bool) :
+    Gen.Mds12.mds_multiply.s_result_11_1 res_11 over_11 =
+      ((res_11 + ((0 + 4294967296 - (if over_11 = true then 1 else 0)) % 4294967296)) % 18446744073709551616) := by
+  rw [Gen.Mds12.mds_multiply.s_result_11_1]
+
+theorem eq_mds_multiply_s_state_0_1 (result_0_1 : Nat) :
+    Gen.Mds12.mds_multiply.s_state_0_1 result_0_1 =
+      (result_0_1) := by
+  rw [Gen.Mds12.mds_multiply.s_state_0_1]
+
+theorem eq_mds_multiply_s_state_1_1 (result_1_1 : Nat) :
+    Gen.Mds12.mds_multiply.s_state_1_1 result_1_1 =
+      (result_1_1) := by
+  rw [Gen.Mds12.mds_multiply.s_state_1_1]
+
+theorem eq_mds_multiply_s_state_2_1 (result_2_1 : Nat) :
+    Gen.Mds12.mds_multiply.s_state_2_1 result_2_1 =
+      (result_2_1) := by
+  rw [Gen.Mds12.mds_multiply.s_state_2_1]
+
+theorem eq_mds_multiply_s_state_3_1 (result_3_1 : Nat) :
+    Gen.Mds12.mds_multiply.s_state_3_1 result_3_1 =
+      (result_3_1) := by
+  rw [Gen.Mds12.mds_multiply.s_state_3_1]
+
+theorem eq_mds_multiply_s_state_4_1 (result_4_1 : Nat) :
+    Gen.Mds12.mds_multiply.s_state_4_1 result_4_1 =
+      (result_4_1) := by
+  rw [Gen.Mds12.mds_multiply.s_state_4_1]
+
+theorem eq_mds_multiply_s_state_5_1 (result_5_1 : Nat) :
+    Gen.Mds12.mds_multiply.s_state_5_1 result_5_1 =
+      (result_5_1) := by
+  rw [Gen.Mds12.mds_multiply.s_state_5_1]
+
+theorem eq_mds_multiply_s_state_6_1 (result_6_1 : Nat) :
+    Gen.Mds12.mds_multiply.s_state_6_1 result_6_1 =
+      (result_6_1) := by
+  rw [Gen.Mds12.mds_multiply.s_state_6_1]
+
+theorem eq_mds_multiply_s_state_7_1 (result_7_1 : Nat) :
+    Gen.Mds12.mds_multiply.s_state_7_1 result_7_1 =
+      (result_7_1) := by
+  rw [Gen.Mds12.mds_multiply.s_state_7_1]
+
+theorem eq_mds_multiply_s_state_8_1 (result_8_1 : Nat) :
+    Gen.Mds12.mds_multiply.s_state_8_1 result_8_1 =
+      (result_8_1) := by
+  rw [Gen.Mds12.mds_multiply.s_state_8_1]
+
+theorem eq_mds_multiply_s_state_9_1 (result_9_1 : Nat) :
+    Gen.Mds12.mds_multiply.s_state_9_1 result_9_1 =
+      (result_9_1) := by
+  rw [Gen.Mds12.mds_multiply.s_state_9_1]
+
+theorem eq_mds_multiply_s_state_10_1 (result_10_1 : Nat) :
+    Gen.Mds12.mds_multiply.s_state_10_1 result_10_1 =
+      (result_10_1) := by
+  rw [Gen.Mds12.mds_multiply.s_state_10_1]
+
+theorem eq_mds_multiply_s_state_11_1 (result_11_1 : Nat) :
+    Gen.Mds12.mds_multiply.s_state_11_1 result_11_1 =
+      (result_11_1) := by
+  rw [Gen.Mds12.mds_multiply.s_state_11_1]
+
+theorem eq_mds_multiply (state_0 : Nat) (state_1 : Nat) (state_2 : Nat) (state_3 : Nat) (state_4 : Nat) (state_5 : Nat) (state_6 : Nat) (state_7 : Nat) (state_8 : Nat) (state_9 : Nat) (state_10 : Nat) (state_11 : Nat) :
+    Gen.Mds12.mds_multiply state_0 state_1 state_2 state_3 state_4 state_5 state_6 state_7 state_8 state_9 state_10 state_11 =
+      (let result_0 := mds_multiply.s_result_0 
+  let result_1 := mds_multiply.s_result_1 
+  let result_2 := mds_multiply.s_result_2 
+  let result_3 := mds_multiply.s_result_3 
+  let result_4 := mds_multiply.s_result_4 
+  let result_5 := mds_multiply.s_result_5 
+  let result_6 := mds_multiply.s_result_6 
+  let result_7 := mds_multiply.s_result_7 
+  let result_8 := mds_multiply.s_result_8 
+  let result_9 := mds_multiply.s_result_9 
+  let result_10 := mds_multiply.s_result_10 
+  let result_11 := mds_multiply.s_result_11 
+  let state_l_0 := mds_multiply.s_state_l_0 
+  let state_l_1 := mds_multiply.s_state_l_1 
+  let state_l_2 := mds_multiply.s_state_l_2 
+  let state_l_3 := mds_multiply.s_state_l_3 
+  let state_l_4 := mds_multiply.s_state_l_4 
+  let state_l_5 := mds_multiply.s_state_l_5 
+  let state_l_6 := mds_multiply.s_state_l_6 
+  let state_l_7 := mds_multiply.s_state_l_7 
+  let state_l_8 := mds_multiply.s_state_l_8 
+  let state_l_9 := mds_multiply.s_state_l_9 
+  let state_l_10 := mds_multiply.s_state_l_10 
+  let state_l_11 := mds_multiply.s_state_l_11 
+  let state_h_0 := mds_multiply.s_state_h_0 
+  let state_h_1 := mds_multiply.s_state_h_1 
+  let state_h_2 := mds_multiply.s_state_h_2 
+  let state_h_3 := mds_multiply.s_state_h_3 
+  let state_h_4 := mds_multiply.s_state_h_4 
+  let state_h_5 := mds_multiply.s_state_h_5 
+  let state_h_6 := mds_multiply.s_state_h_6 
+  let state_h_7 := mds_multiply.s_state_h_7 
+  let state_h_8 := mds_multiply.s_state_h_8 
+  let state_h_9 := mds_multiply.s_state_h_9 
+  let state_h_10 := mds_multiply.s_state_h_10 
+  let state_h_11 := mds_multiply.s_state_h_11 
+  let s := mds_multiply.s_s state_0
+  let state_h_0_1 := mds_multiply.s_state_h_0_1 s
+  let state_l_0_1 := mds_multiply.s_state_l_0_1 s
+  let s_1 := mds_multiply.s_s_1 state_1
+  let state_h_1_1 := mds_multiply.s_state_h_1_1 s_1
+  let state_l_1_1 := mds_multiply.s_state_l_1_1 s_1
+  let s_2 := mds_multiply.s_s_2 state_2
+  let state_h_2_1 := mds_multiply.s_state_h_2_1 s_2
+  let state_l_2_1 := mds_multiply.s_state_l_2_1 s_2
+  let s_3 := mds_multiply.s_s_3 state_3
+  let state_h_3_1 := mds_multiply.s_state_h_3_1 s_3
+  let state_l_3_1 := mds_multiply.s_state_l_3_1 s_3
+  let s_4 := mds_multiply.s_s_4 state_4
+  let state_h_4_1 := mds_multiply.s_state_h_4_1 s_4
+  let state_l_4_1 := mds_multiply.s_state_l_4_1 s_4
+  let s_5 := mds_multiply.s_s_5 state_5
+  let state_h_5_1 := mds_multiply.s_state_h_5_1 s_5
+  let state_l_5_1 := mds_multiply.s_state_l_5_1 s_5
+  let s_6 := mds_multiply.s_s_6 state_6
+  let state_h_6_1 := mds_multiply.s_state_h_6_1 s_6
+  let state_l_6_1 := mds_multiply.s_state_l_6_1 s_6
+  let s_7 := mds_multiply.s_s_7 state_7
+  let state_h_7_1 := mds_multiply.s_state_h_7_1 s_7
+  let state_l_7_1 := mds_multiply.s_state_l_7_1 s_7
+  let s_8 := mds_multiply.s_s_8 state_8
+  let state_h_8_1 := mds_multiply.s_state_h_8_1 s_8
+  let state_l_8_1 := mds_multiply.s_state_l_8_1 s_8
+  let s_9 := mds_multiply.s_s_9 state_9
+  let state_h_9_1 := mds_multiply.s_state_h_9_1 s_9
+  let state_l_9_1 := mds_multiply.s_state_l_9_1 s_9
+  let s_10 := mds_multiply.s_s_10 state_10
+  let state_h_10_1 := mds_multiply.s_state_h_10_1 s_10
+  let state_l_10_1 := mds_multiply.s_state_l_10_1 s_10
+  let s_11 := mds_multiply.s_s_11 state_11
+  let state_h_11_1 := mds_multiply.s_state_h_11_1 s_11
+  let state_l_11_1 := mds_multiply.s_state_l_11_1 s_11
+  let r := mds_multiply.s_r state_h_0_1 state_h_1_1 state_h_2_1 state_h_3_1 state_h_4_1 state_h_5_1 state_h_6_1 state_h_7_1 state_h_8_1 state_h_9_1 state_h_10_1 state_h_11_1
+  let state_h_0_2 := mds_multiply.s_state_h_0_2 r
+  let state_h_1_2 := mds_multiply.s_state_h_1_2 r
+  let state_h_2_2 := mds_multiply.s_state_h_2_2 r
+  let state_h_3_2 := mds_multiply.s_state_h_3_2 r
+  let state_h_4_2 := mds_multiply.s_state_h_4_2 r
+  let state_h_5_2 := mds_multiply.s_state_h_5_2 r
+  let state_h_6_2 := mds_multiply.s_state_h_6_2 r
+  let state_h_7_2 := mds_multiply.s_state_h_7_2 r
+  let state_h_8_2 := mds_multiply.s_state_h_8_2 r
+  let state_h_9_2 := mds_multiply.s_state_h_9_2 r
+  let state_h_10_2 := mds_multiply.s_state_h_10_2 r
+  let state_h_11_2 := mds_multiply.s_state_h_11_2 r
+  let r_1 := mds_multiply.s_r_1 state_l_0_1 state_l_1_1 state_l_2_1 state_l_3_1 state_l_4_1 state_l_5_1 state_l_6_1 state_l_7_1 state_l_8_1 state_l_9_1 state_l_10_1 state_l_11_1
+  let state_l_0_2 := mds_multiply.s_state_l_0_2 r_1
+  let state_l_1_2 := mds_multiply.s_state_l_1_2 r_1
+  let state_l_2_2 := mds_multiply.s_state_l_2_2 r_1
+  let state_l_3_2 := mds_multiply.s_state_l_3_2 r_1
+  let state_l_4_2 := mds_multiply.s_state_l_4_2 r_1
+  let state_l_5_2 := mds_multiply.s_state_l_5_2 r_1
+  let state_l_6_2 := mds_multiply.s_state_l_6_2 r_1
+  let state_l_7_2 := mds_multiply.s_state_l_7_2 r_1
+  let state_l_8_2 := mds_multiply.s_state_l_8_2 r_1
+  let state_l_9_2 := mds_multiply.s_state_l_9_2 r_1
+  let state_l_10_2 := mds_multiply.s_state_l_10_2 r_1
+  let state_l_11_2 := mds_multiply.s_state_l_11_2 r_1
+  let s_12 := mds_multiply.s_s_12 state_h_0_2 state_l_0_2
+  let s_hi := mds_multiply.s_s_hi s_12
+  let s_lo := mds_multiply.s_s_lo s_12
+  let z := mds_multiply.s_z s_hi
+  let res := mds_multiply.s_res s_lo z
+  let over := mds_multiply.s_over s_lo z
+  let result_0_1 := mds_multiply.s_result_0_1 res over
+  let s_13 := mds_multiply.s_s_13 state_h_1_2 state_l_1_2
+  let s_hi_1 := mds_multiply.s_s_hi_1 s_13
+  let s_lo_1 := mds_multiply.s_s_lo_1 s_13
+  let z_1 := mds_multiply.s_z_1 s_hi_1
+  let res_1 := mds_multiply.s_res_1 s_lo_1 z_1
+  let over_1 := mds_multiply.s_over_1 s_lo_1 z_1
+  let result_1_1 := mds_multiply.s_result_1_1 res_1 over_1
+  let s_14 := mds_multiply.s_s_14 state_h_2_2 state_l_2_2
+  let s_hi_2 := mds_multiply.s_s_hi_2 s_14
+  let s_lo_2 := mds_multiply.s_s_lo_2 s_14
+  let z_2 := mds_multiply.s_z_2 s_hi_2
+  let res_2 := mds_multiply.s_res_2 s_lo_2 z_2
+  let over_2 := mds_multiply.s_over_2 s_lo_2 z_2
+  let result_2_1 := mds_multiply.s_result_2_1 res_2 over_2
+  let s_15 := mds_multiply.s_s_15 state_h_3_2 state_l_3_2
+  let s_hi_3 := mds_multiply.s_s_hi_3 s_15
+  let s_lo_3 := mds_multiply.s_s_lo_3 s_15
+  let z_3 := mds_multiply.s_z_3 s_hi_3
+  let res_3 := mds_multiply.s_res_3 s_lo_3 z_3
+  let over_3 := mds_multiply.s_over_3 s_lo_3 z_3
+  let result_3_1 := mds_multiply.s_result_3_1 res_3 over_3
+  let s_16 := mds_multiply.s_s_16 state_h_4_2 state_l_4_2
+  let s_hi_4 := mds_multiply.s_s_hi_4 s_16
+  let s_lo_4 := mds_multiply.s_s_lo_4 s_16
+  let z_4 := mds_multiply.s_z_4 s_hi_4
+  let res_4 := mds_multiply.s_res_4 s_lo_4 z_4
+  let over_4 := mds_multiply.s_over_4 s_lo_4 z_4
+  let result_4_1 := mds_multiply.s_result_4_1 res_4 over_4
+  let s_17 := mds_multiply.s_s_17 state_h_5_2 state_l_5_2
+  let s_hi_5 := mds_multiply.s_s_hi_5 s_17
+  let s_lo_5 := mds_multiply.s_s_lo_5 s_17
+  let z_5 := mds_multiply.s_z_5 s_hi_5
+  let res_5 := mds_multiply.s_res_5 s_lo_5 z_5
+  let over_5 := mds_multiply.s_over_5 s_lo_5 z_5
+  let result_5_1 := mds_multiply.s_result_5_1 res_5 over_5
+  let s_18 := mds_multiply.s_s_18 state_h_6_2 state_l_6_2
+  let s_hi_6 := mds_multiply.s_s_hi_6 s_18
+  let s_lo_6 := mds_multiply.s_s_lo_6 s_18
+  let z_6 := mds_multiply.s_z_6 s_hi_6
+  let res_6 := mds_multiply.s_res_6 s_lo_6 z_6
+  let over_6 := mds_multiply.s_over_6 s_lo_6 z_6
+  let result_6_1 := mds_multiply.s_result_6_1 res_6 over_6
+  let s_19 := mds_multiply.s_s_19 state_h_7_2 state_l_7_2
+  let s_hi_7 := mds_multiply.s_s_hi_7 s_19
+  let s_lo_7 := mds_multiply.s_s_lo_7 s_19
+  let z_7 := mds_multiply.s_z_7 s_hi_7
+  let res_7 := mds_multiply.s_res_7 s_lo_7 z_7
+  let over_7 := mds_multiply.s_over_7 s_lo_7 z_7
+  let result_7_1 := mds_multiply.s_result_7_1 res_7 over_7
+  let s_20 := mds_multiply.s_s_20 state_h_8_2 state_l_8_2
+  let s_hi_8 := mds_multiply.s_s_hi_8 s_20
+  let s_lo_8 := mds_multiply.s_s_lo_8 s_20
+  let z_8 := mds_multiply.s_z_8 s_hi_8
+  let res_8 := mds_multiply.s_res_8 s_lo_8 z_8
+  let over_8 := mds_multiply.s_over_8 s_lo_8 z_8
+  let result_8_1 := mds_multiply.s_result_8_1 res_8 over_8
+  let s_21 := mds_multiply.s_s_21 state_h_9_2 state_l_9_2
+  let s_hi_9 := mds_multiply.s_s_hi_9 s_21
+  let s_lo_9 := mds_multiply.s_s_lo_9 s_21
+  let z_9 := mds_multiply.s_z_9 s_hi_9
+  let res_9 := mds_multiply.s_res_9 s_lo_9 z_9
+  let over_9 := mds_multiply.s_over_9 s_lo_9 z_9
+  let result_9_1 := mds_multiply.s_result_9_1 res_9 over_9
+  let s_22 := mds_multiply.s_s_22 state_h_10_2 state_l_10_2
+  let s_hi_10 := mds_multiply.s_s_hi_10 s_22
+  let s_lo_10 := mds_multiply.s_s_lo_10 s_22
+  let z_10 := mds_multiply.s_z_10 s_hi_10
+  let res_10 := mds_multiply.s_res_10 s_lo_10 z_10
+  let over_10 := mds_multiply.s_over_10 s_lo_10 z_10
+  let result_10_1 := mds_multiply.s_result_10_1 res_10 over_10
+  let s_23 := mds_multiply.s_s_23 state_h_11_2 state_l_11_2
+  let s_hi_11 := mds_multiply.s_s_hi_11 s_23
+  let s_lo_11 := mds_multiply.s_s_lo_11 s_23
+  let z_11 := mds_multiply.s_z_11 s_hi_11
+  let res_11 := mds_multiply.s_res_11 s_lo_11 z_11
+  let over_11 := mds_multiply.s_over_11 s_lo_11 z_11
+  let result_11_1 := mds_multiply.s_result_11_1 res_11 over_11
+  let state_0_1 := mds_multiply.s_state_0_1 result_0_1
+  let state_1_1 := mds_multiply.s_state_1_1 result_1_1
+  let state_2_1 := mds_multiply.s_state_2_1 result_2_1
+  let state_3_1 := mds_multiply.s_state_3_1 result_3_1
+  let state_4_1 := mds_multiply.s_state_4_1 result_4_1
+  let state_5_1 := mds_multiply.s_state_5_1 result_5_1
+  let state_6_1 := mds_multiply.s_state_6_1 result_6_1
+  let state_7_1 := mds_multiply.s_state_7_1 result_7_1
+  let state_8_1 := mds_multiply.s_state_8_1 result_8_1
+  let state_9_1 := mds_multiply.s_state_9_1 result_9_1
+  let state_10_1 := mds_multiply.s_state_10_1 result_10_1
+  let state_11_1 := mds_multiply.s_state_11_1 result_11_1
+  (state_0_1, state_1_1, state_2_1, state_3_1, state_4_1, state_5_1, state_6_1, state_7_1, state_8_1, state_9_1, state_10_1, state_11_1)) := by
+  rw [Gen.Mds12.mds_multiply]
+
+end steps
+
+theorem fold_0' (h l : Nat) :
+    (Gen.Mds12.mds_multiply.s_result_0_1 (Gen.Mds12.mds_multiply.s_res (Gen.Mds12.mds_multiply.s_s_lo (Gen.Mds12.mds_multiply.s_s_12 h l)) (Gen.Mds12.mds_multiply.s_z (Gen.Mds12.mds_multiply.s_s_hi (Gen.Mds12.mds_multiply.s_s_12 h l)))) (Gen.Mds12.mds_multiply.s_over (Gen.Mds12.mds_multiply.s_s_lo (Gen.Mds12.mds_multiply.s_s_12 h l)) (Gen.Mds12.mds_multiply.s_z (Gen.Mds12.mds_multiply.s_s_hi (Gen.Mds12.mds_multiply.s_s_12 h l))))) = tailRed l h := by
+  rw [fold_0]
+
+theorem fold_1' (h l : Nat) :
+    (Gen.Mds12.mds_multiply.s_result_1_1 (Gen.Mds12.mds_multiply.s_res_1 (Gen.Mds12.mds_multiply.s_s_lo_1 (Gen.Mds12.mds_multiply.s_s_13 h l)) (Gen.Mds12.mds_multiply.s_z_1 (Gen.Mds12.mds_multiply.s_s_hi_1 (Gen.Mds12.mds_multiply.s_s_13 h l)))) (Gen.Mds12.mds_multiply.s_over_1 (Gen.Mds12.mds_multiply.s_s_lo_1 (Gen.Mds12.mds_multiply.s_s_13 h l)) (Gen.Mds12.mds_multiply.s_z_1 (Gen.Mds12.mds_multiply.s_s_hi_1 (Gen.Mds12.mds_multiply.s_s_13 h l))))) = tailRed l h := by
+  rw [fold_1]
+
+theorem fold_2' (h l : Nat) :
+    (Gen.Mds12.mds_multiply.s_result_2_1 (Gen.Mds12.mds_multiply.s_res_2 (Gen.Mds12.mds_multiply.s_s_lo_2 (Gen.Mds12.mds_multiply.s_s_14 h l)) (Gen.Mds12.mds_multiply.s_z_2 (Gen.Mds12.mds_multiply.s_s_hi_2 (Gen.Mds12.mds_multiply.s_s_14 h l)))) (Gen.Mds12.mds_multiply.s_over_2 (Gen.Mds12.mds_multiply.s_s_lo_2 (Gen.Mds12.mds_multiply.s_s_14 h l)) (Gen.Mds12.mds_multiply.s_z_2 (Gen.Mds12.mds_multiply.s_s_hi_2 (Gen.Mds12.mds_multiply.s_s_14 h l))))) = tailRed l h := by
+  rw [fold_2]
+
+theorem fold_3' (h l : Nat) :
+    (Gen.Mds12.mds_multiply.s_result_3_1 (Gen.Mds12.mds_multiply.s_res_3 (Gen.Mds12.mds_multiply.s_s_lo_3 (Gen.Mds12.mds_multiply.s_s_15 h l)) (Gen.Mds12.mds_multiply.s_z_3 (Gen.Mds12.mds_multiply.s_s_hi_3 (Gen.Mds12.mds_multiply.s_s_15 h l)))) (Gen.Mds12.mds_multiply.s_over_3 (Gen.Mds12.mds_multiply.s_s_lo_3 (Gen.Mds12.mds_multiply.s_s_15 h l)) (Gen.Mds12.mds_multiply.s_z_3 (Gen.Mds12.mds_multiply.s_s_hi_3 (Gen.Mds12.mds_multiply.s_s_15 h l))))) = tailRed l h := by
+  rw [fold_3]
+
+theorem fold_4' (h l : Nat) :
+    (Gen.Mds12.mds_multiply.s_result_4_1 (Gen.Mds12.mds_multiply.s_res_4 (Gen.Mds12.mds_multiply.s_s_lo_4 (Gen.Mds12.mds_multiply.s_s_16 h l)) (Gen.Mds12.mds_multiply.s_z_4 (Gen.Mds12.mds_multiply.s_s_hi_4 (Gen.Mds12.mds_multiply.s_s_16 h l)))) (Gen.Mds12.mds_multiply.s_over_4 (Gen.Mds12.mds_multiply.s_s_lo_4 (Gen.Mds12.mds_multiply.s_s_16 h l)) (Gen.Mds12.mds_multiply.s_z_4 (Gen.Mds12.mds_multiply.s_s_hi_4 (Gen.Mds12.mds_multiply.s_s_16 h l))))) = tailRed l h := by
+  rw [fold_4]
+
+theorem fold_5' (h l : Nat) :
+    (Gen.Mds12.mds_multiply.s_result_5_1 (Gen.Mds12.mds_multiply.s_res_5 (Gen.Mds12.mds_multiply.s_s_lo_5 (Gen.Mds12.mds_multiply.s_s_17 h l)) (Gen.Mds12.mds_multiply.s_z_5 (Gen.Mds12.mds_multiply.s_s_hi_5 (Gen.Mds12.mds_multiply.s_s_17 h l)))) (Gen.Mds12.mds_multiply.s_over_5 (Gen.Mds12.mds_multiply.s_s_lo_5 (Gen.Mds12.mds_multiply.s_s_17 h l)) (Gen.Mds12.mds_multiply.s_z_5 (Gen.Mds12.mds_multiply.s_s_hi_5 (Gen.Mds12.mds_multiply.s_s_17 h l))))) = tailRed l h := by
+  rw [fold_5]
+
+theorem fold_6' (h l : Nat) :
+    (Gen.Mds12.mds_multiply.s_result_6_1 (Gen.Mds12.mds_multiply.s_res_6 (Gen.Mds12.mds_multiply.s_s_lo_6 (Gen.Mds12.mds_multiply.s_s_18 h l)) (Gen.Mds12.mds_multiply.s_z_6 (Gen.Mds12.mds_multiply.s_s_hi_6 (Gen.Mds12.mds_multiply.s_s_18 h l)))) (Gen.Mds12.mds_multiply.s_over_6 (Gen.Mds12.mds_multiply.s_s_lo_6 (Gen.Mds12.mds_multiply.s_s_18 h l)) (Gen.Mds12.mds_multiply.s_z_6 (Gen.Mds12.mds_multiply.s_s_hi_6 (Gen.Mds12.mds_multiply.s_s_18 h l))))) = tailRed l h := by
+  rw [fold_6]
+
+theorem fold_7' (h l : Nat) :
+    (Gen.Mds12.mds_multiply.s_result_7_1 (Gen.Mds12.mds_multiply.s_res_7 (Gen.Mds12.mds_multiply.s_s_lo_7 (Gen.Mds12.mds_multiply.s_s_19 h l)) (Gen.Mds12.mds_multiply.s_z_7 (Gen.Mds12.mds_multiply.s_s_hi_7 (Gen.Mds12.mds_multiply.s_s_19 h l)))) (Gen.Mds12.mds_multiply.s_over_7 (Gen.Mds12.mds_multiply.s_s_lo_7 (Gen.Mds12.mds_multiply.s_s_19 h l)) (Gen.Mds12.mds_multiply.s_z_7 (Gen.Mds12.mds_multiply.s_s_hi_7 (Gen.Mds12.mds_multiply.s_s_19 h l))))) = tailRed l h := by
+  rw [fold_7]
+
+theorem fold_8' (h l : Nat) :
+    (Gen.Mds12.mds_multiply.s_result_8_1 (Gen.Mds12.mds_multiply.s_res_8 (Gen.Mds12.mds_multiply.s_s_lo_8 (Gen.Mds12.mds_multiply.s_s_20 h l)) (Gen.Mds12.mds_multiply.s_z_8 (Gen.Mds12.mds_multiply.s_s_hi_8 (Gen.Mds12.mds_multiply.s_s_20 h l)))) (Gen.Mds12.mds_multiply.s_over_8 (Gen.Mds12.mds_multiply.s_s_lo_8 (Gen.Mds12.mds_multiply.s_s_20 h l)) (Gen.Mds12.mds_multiply.s_z_8 (Gen.Mds12.mds_multiply.s_s_hi_8 (Gen.Mds12.mds_multiply.s_s_20 h l))))) = tailRed l h := by
+  rw [fold_8]
+
+theorem fold_9' (h l : Nat) :
+    (Gen.Mds12.mds_multiply.s_result_9_1 (Gen.Mds12.mds_multiply.s_res_9 (Gen.Mds12.mds_multiply.s_s_lo_9 (Gen.Mds12.mds_multiply.s_s_21 h l)) (Gen.Mds12.mds_multiply.s_z_9 (Gen.Mds12.mds_multiply.s_s_hi_9 (Gen.Mds12.mds_multiply.s_s_21 h l)))) (Gen.Mds12.mds_multiply.s_over_9 (Gen.Mds12.mds_multiply.s_s_lo_9 (Gen.Mds12.mds_multiply.s_s_21 h l)) (Gen.Mds12.mds_multiply.s_z_9 (Gen.Mds12.mds_multiply.s_s_hi_9 (Gen.Mds12.mds_multiply.s_s_21 h l))))) = tailRed l h := by
+  rw [fold_9]
+
+theorem fold_10' (h l : Nat) :
+    (Gen.Mds12.mds_multiply.s_result_10_1 (Gen.Mds12.mds_multiply.s_res_10 (Gen.Mds12.mds_multiply.s_s_lo_10 (Gen.Mds12.mds_multiply.s_s_22 h l)) (Gen.Mds12.mds_multiply.s_z_10 (Gen.Mds12.mds_multiply.s_s_hi_10 (Gen.Mds12.mds_multiply.s_s_22 h l)))) (Gen.Mds12.mds_multiply.s_over_10 (Gen.Mds12.mds_multiply.s_s_lo_10 (Gen.Mds12.mds_multiply.s_s_22 h l)) (Gen.Mds12.mds_multiply.s_z_10 (Gen.Mds12.mds_multiply.s_s_hi_10 (Gen.Mds12.mds_multiply.s_s_22 h l))))) = tailRed l h := by
+  rw [fold_10]
+
+theorem fold_11' (h l : Nat) :
+    (Gen.Mds12.mds_multiply.s_result_11_1 (Gen.Mds12.mds_multiply.s_res_11 (Gen.Mds12.mds_multiply.s_s_lo_11 (Gen.Mds12.mds_multiply.s_s_23 h l)) (Gen.Mds12.mds_multiply.s_z_11 (Gen.Mds12.mds_multiply.s_s_hi_11 (Gen.Mds12.mds_multiply.s_s_23 h l)))) (Gen.Mds12.mds_multiply.s_over_11 (Gen.Mds12.mds_multiply.s_s_lo_11 (Gen.Mds12.mds_multiply.s_s_23 h l)) (Gen.Mds12.mds_multiply.s_z_11 (Gen.Mds12.mds_multiply.s_s_hi_11 (Gen.Mds12.mds_multiply.s_s_23 h l))))) = tailRed l h := by
+  rw [fold_11]
+
+/-- proved by rewriting with the step equations only: no definitional unfolding, so the kernel never
+    has to re-check a computation on 2^64 literals -/
+theorem mm_eq_tail : mm_eq_tail_statement := by
+  intro x0 x1 x2 x3 x4 x5 x6 x7 x8 x9 x10 x11
+  simp only [eq_mds_multiply_s_s, eq_mds_multiply_s_state_h_0_1, eq_mds_multiply_s_state_l_0_1,
+      eq_mds_multiply_s_s_1, eq_mds_multiply_s_state_h_1_1, eq_mds_multiply_s_state_l_1_1,
+      eq_mds_multiply_s_s_2, eq_mds_multiply_s_state_h_2_1, eq_mds_multiply_s_state_l_2_1,
+      eq_mds_multiply_s_s_3, eq_mds_multiply_s_state_h_3_1, eq_mds_multiply_s_state_l_3_1,
+      eq_mds_multiply_s_s_4, eq_mds_multiply_s_state_h_4_1, eq_mds_multiply_s_state_l_4_1,
+      eq_mds_multiply_s_s_5, eq_mds_multiply_s_state_h_5_1, eq_mds_multiply_s_state_l_5_1,
+      eq_mds_multiply_s_s_6, eq_mds_multiply_s_state_h_6_1, eq_mds_multiply_s_state_l_6_1,
+      eq_mds_multiply_s_s_7, eq_mds_multiply_s_state_h_7_1, eq_mds_multiply_s_state_l_7_1,
+      eq_mds_multiply_s_s_8, eq_mds_multiply_s_state_h_8_1, eq_mds_multiply_s_state_l_8_1,
+      eq_mds_multiply_s_s_9, eq_mds_multiply_s_state_h_9_1, eq_mds_multiply_s_state_l_9_1,
+      eq_mds_multiply_s_s_10, eq_mds_multiply_s_state_h_10_1, eq_mds_multiply_s_state_l_10_1,
+      eq_mds_multiply_s_s_11, eq_mds_multiply_s_state_h_11_1, eq_mds_multiply_s_state_l_11_1,
+      eq_mds_multiply_s_r, eq_mds_multiply_s_state_h_0_2, eq_mds_multiply_s_state_h_1_2,
+      eq_mds_multiply_s_state_h_2_2, eq_mds_multiply_s_state_h_3_2, eq_mds_multiply_s_state_h_4_2,
+      eq_mds_multiply_s_state_h_5_2, eq_mds_multiply_s_state_h_6_2, eq_mds_multiply_s_state_h_7_2,
+      eq_mds_multiply_s_state_h_8_2, eq_mds_multiply_s_state_h_9_2, eq_mds_multiply_s_state_h_10_2,
+      eq_mds_multiply_s_state_h_11_2, eq_mds_multiply_s_r_1, eq_mds_multiply_s_state_l_0_2,
+      eq_mds_multiply_s_state_l_1_2, eq_mds_multiply_s_state_l_2_2, eq_mds_multiply_s_state_l_3_2,
+      eq_mds_multiply_s_state_l_4_2, eq_mds_multiply_s_state_l_5_2, eq_mds_multiply_s_state_l_6_2,
+      eq_mds_multiply_s_state_l_7_2, eq_mds_multiply_s_state_l_8_2, eq_mds_multiply_s_state_l_9_2,
+      eq_mds_multiply_s_state_l_10_2, eq_mds_multiply_s_state_l_11_2, eq_mds_multiply_s_state_0_1,
+      eq_mds_multiply_s_state_1_1, eq_mds_multiply_s_state_2_1, eq_mds_multiply_s_state_3_1,
+      eq_mds_multiply_s_state_4_1, eq_mds_multiply_s_state_5_1, eq_mds_multiply_s_state_6_1,
+      eq_mds_multiply_s_state_7_1, eq_mds_multiply_s_state_8_1, eq_mds_multiply_s_state_9_1,
+      eq_mds_multiply_s_state_10_1, eq_mds_multiply_s_state_11_1, eq_mds_multiply,
+      fold_0', fold_1', fold_2', fold_3', fold_4', fold_5', fold_6', fold_7', fold_8', fold_9', fold_10', fold_11']
 
 end WinterProofs.C11.Mds12
